@@ -22,13 +22,15 @@ def mod_name(m: int) -> str:
     return f"M{m + 1}"
 
 
-def build(emb, cells, den, bump=None):
+def build(emb, cells, den, bump=None, late_fix=False):
+    """late_fix: the fixed cells are tagged AFTER the Allocation is constructed (`rect.fixed = True` on the allocation's
+    own rectangles: the route `Allocation._detect_fixed_rectangles` / `initial_allocation` takes), not in the descriptor."""
     from frame.allocation.allocation import Allocation
     from frame.geometry.geometry import Rectangle, Point, Shape
     lst = []
     for c in cells:
         cx, cy, w, h = emb.rect(c)
-        r = Rectangle(center=Point(cx, cy), shape=Shape(w, h), fixed=bool(c[5]))
+        r = Rectangle(center=Point(cx, cy), shape=Shape(w, h), fixed=bool(c[5]) and not late_fix)
         alloc = {mod_name(m): float(F(n, den)) for m, n in enumerate(c[6]) if n >= 0}
         lst.append((r, alloc, c[4]))
     for (ci, m, ulps) in (bump or []):      # near ties: an occupancy a few units in the last place off its lattice value
@@ -36,7 +38,12 @@ def build(emb, cells, den, bump=None):
         for _ in range(abs(ulps)):
             v = math.nextafter(v, 2.0 if ulps > 0 else -1.0)
         lst[ci][1][mod_name(m)] = v
-    return Allocation(lst)
+    a = Allocation(lst)
+    if late_fix:
+        for ra, c in zip(a.allocations, cells):
+            if c[5]:
+                ra.rect.fixed = True
+    return a
 
 
 def observe(emb, a, den, nm):
@@ -86,7 +93,7 @@ def run_alloc_case(case):
         Rectangle.undefine_epsilon()
         try:
             try:
-                a = build(emb, case["cells"], den, case.get("bump"))
+                a = build(emb, case["cells"], den, case.get("bump"), bool(case.get("late_fix")))
             except Exception as e:
                 # a valid allocation (pairwise non-overlapping lattice cells, ratios in [0,1]) must be constructible
                 res[en] = {"noconstruct": f"{type(e).__name__}: {e}"[:160]}
@@ -352,4 +359,13 @@ def gen_cases(ctx: Ctx, tier: str, salt: int):
     nt = neartie_cases(rng, 60 if tier == "quick" else 600)
     cases += nt
     ctx.extra["near_tie_cases"] = len(nt)
+    # every second behaviour with a fixed cell reaches its state the way initial_allocation does: cells tagged as fixed
+    # after the constructor returned (same abstract state, so the same verdicts are required)
+    k = 0
+    for c in cases:
+        if any(cell[5] for cell in c["cells"]):
+            k += 1
+            if k % 2 == 0:
+                c["late_fix"] = 1
+    ctx.extra["late_fixed_behaviours"] = k // 2
     return cases
